@@ -62,6 +62,16 @@ PLAN = {
         {"engine": "e_api", "config": "miri-sse2", "mode": "miri", "tiers": T, "shards": {"quick": 8, "thorough": 8}},
         {"engine": "e_api", "config": "miri-coresimd", "mode": "miri", "tiers": T, "shards": {"quick": 8, "thorough": 8}},
     ], "not_observed": ["neon", "wasm32", "scalar-math (no hidden lane exists there)"]},
+    "C19": {"runs": [
+        {"engine": "e_interop", "config": c, "tiers": t, "shards": {"quick": 1, "thorough": 1}, "args": ["--trace", "{wdir}/json.{config}.txt"]}
+        for c, t in (("sse2", Q), ("scalar", Q), ("coresimd", T))
+    ] + [
+        {"engine": "e_interop", "config": "miri-sse2", "mode": "miri", "tiers": Q, "shards": {"quick": 8, "thorough": 8}},
+        {"engine": "e_interop", "config": "miri-scalar", "mode": "miri", "tiers": T, "shards": {"quick": 8, "thorough": 8}},
+    ], "post": [
+        {"name": "jsoncmp", "tiers": ["quick"], "pairs": [["sse2", "scalar"]]},
+        {"name": "jsoncmp", "tiers": ["thorough"], "pairs": [["sse2", "scalar"], ["sse2", "coresimd"]]},
+    ]},
     "C20": {"runs": [
         {"engine": "e_api", "config": "assert", "tiers": Q},
         {"engine": "e_api", "config": "assert-scalar", "tiers": Q},
@@ -96,6 +106,7 @@ for _p in ("C13",):
         _r["shards"] = {"quick": 8, "thorough": 16}
 
 RULES = {
+    "C19": "Events per value type (36 numeric vector and quaternion types, 7 matrix, 4 affine, 5 mask types): serde through an exact in-memory token-stream Serializer/Deserializer - the stream must be TupleStruct{name, N} + N scalar tokens in lane / column-major order + End, deserialise back bit-identically (NaN payloads, -0), sequences of every length 0..N+2 (short must be rejected; long: exactly N requested and consumed), serde_json text round trip of finite values and rejection of one element more / fewer, and the JSON text of the same seeded values compared byte-for-byte between SIMD and scalar-math builds; bytemuck - for every Pod type size_of = N*size_of(scalar), bytes_of = elements in order, cast there and back for random bit patterns, cast_slice, zeroed; AnyBitPattern-only types decode their elements from the modelled offsets of arbitrary bytes; the Pod set is probed at compile time (autoref) so a Pod impl on a padded type is caught; rkyv to_bytes / access / deserialize with the element bytes at the modelled offsets; mint to-and-back and entry (r,c) preservation for column- and row-major matrices; Miri reads every byte of bytes_of.",
     "C20": "Programs of 2-12 operations drawn from 46 precondition-carrying operation groups (normalize family, any_orthonormal_*, every rotation constructor, unit-quaternion product / inverse / lerp / slerp / rotate_towards, from_rotation_arc incl. exactly opposite, look_to/look_at, TRS compose -> decompose -> recompose, inverse -> transform, to_euler/from_euler, to_axis_angle/from_axis_angle, clamp_length*, reflect/refract, projection ...) for the f32 and f64 families; every operand comes from typed pools of values produced by glam itself (unit vectors, unit quaternions, rotation matrices, shear-free TRS matrices, affine matrices) or from finite non-degenerate seeds (including tiny vectors whose squared length is still normal). Monitors: no program panics in glam-assert builds; after every step every pooled value is checked against the predicate it will be used under (|len^2 - 1| <= 2e-4, affine row within 1e-6) and the margin consumed is recorded; 24 documented violations panic exactly when the assertions are compiled in; the same programs are traced in builds with and without glam-assert (sse2 and scalar) and every returned word compared bit-for-bit. Events = programs + compared records.",
     "C07": "Each build of the working tree (sse2, scalar-math, +fma,+avx2; core-simd and target-cpu=native in thorough) records the same seeded workload into a trace: every registry entry that involves one of the eight SIMD-backed types (524 entries: inherent functions, operators, conversions, Display/Debug) called on finite inputs, each call re-executed 8 times on inputs moved by up to 64 ulp (conditioning probe), plus random programs of 2-8 operations chained through a typed value pool. An offline comparator walks pairs of traces in lock-step: SIMD vs scalar (and core-simd): |a - b| <= (largest change under the 64-ulp perturbations) + 32 eps x (largest input scalar / output lane of the call) per float word, discrete outcomes (bool / Option / index) equal unless they flip under the perturbations (boundary), Debug/Display text hash equal whenever the values are bit-equal; sse2 vs +fma / native: every word of every record, including the chained programs, bit-for-bit (NaN sign/payload excepted: unspecified in Rust). Events = records compared; distinct = entries.",
     "C08": "Twin execution: every registry entry that takes or returns a Vec3A, Mat3A, Affine3A or BVec3A (261 entries: own methods, operators, Sum/Product, PartialEq, Hash, Display/Debug, From impls, and functions of Quat / Mat4 / Mat3 / Affine3A taking them) is executed on arguments with bit-identical visible lanes whose hidden fourth lane holds each of {0, 1, -1, 3e38, min subnormal, +inf, -inf, quiet NaN, signalling NaN, all-ones} injected through three public routes (Vec3A::from_vec4, a computed register, From<raw register>; masks through comparisons of such vectors), on ordinary and special-value visible lanes; all captured visible outputs (lanes, scalars, bools, Options, strings, hashes, bitmasks) must be bit-identical to the run with the natural hidden lane. Plus random programs of 2-6 such operations chained through a typed value pool so that hidden lanes computed by glam itself feed later operations. Every event is one poisoned execution; distinct = (entry, poison, route, input mode).",
